@@ -153,6 +153,8 @@ func (c *FnCtx) ghostIntrinsic(fr *Frame, st *State, fn *ssa.Function, args []*T
 		mt := types.NewMap(types.Typ[types.String], types.NewInterfaceType(nil, nil))
 		mh := c.mapHeaps(st, mt)
 		return []*Term{ts.UF("gobDecodedAs", SBool, c.heap(st, mh.dom, mh.sdom), c.heap(st, mh.sel, mh.ssel), c.heap(st, mh.ln, mh.sln), args[0], args[1])}, true
+	case "verifSame": // two values are the same (slices element-wise, maps by identity): equality of their representations
+		return []*Term{ts.Eq(args[0], args[1])}, true
 	case "verifSameMap": // identity of two maps
 		return []*Term{ts.Eq(args[0], args[1])}, true
 	case "verifSameVal": // equality of two values (maps by identity)
@@ -742,6 +744,35 @@ func (c *FnCtx) modelMore(fr *Frame, st *State, x *ssa.Call, name string, args [
 		}
 		return res
 	}
+	// functions of the mxj core called from a compatibility sub-package: deterministic summaries threaded through a
+	// ghost "world" token (any core call may change Maps and is ordered after the previous ones)
+	if callee := cc.StaticCallee(); callee != nil && callee.Pkg != nil && strings.HasPrefix(callee.Pkg.Pkg.Path(), modPath) && callee.Pkg != c.eng.ld.SSA {
+		c.trusted["core functions called from a sub-package enter as deterministic summaries f(world, Map heaps, args) with a world token threaded through the calls (their own behaviour is verified in package mxj)"] = true
+		w := c.getCell(st, c.worldCell())
+		c.eng.registerMapHeaps(types.NewMap(types.Typ[types.String], types.NewInterfaceType(nil, nil)))
+		uargs := []*Term{w}
+		for _, h := range []string{"Mdom:map[string]interface{}", "Msel:map[string]interface{}", "Mlen:map[string]interface{}"} {
+			uargs = append(uargs, c.heap(st, h, c.eng.heapSorts[h]))
+		}
+		uargs = append(uargs, args...)
+		rs := cc.Signature().Results()
+		var out []*Term
+		fname := sanitize(callee.String())
+		for i := 0; i < rs.Len(); i++ {
+			r := ts.UF(fmt.Sprintf("core!%s!%d", fname, i), c.eng.tc.SortOf(rs.At(i).Type()), uargs...)
+			c.typeFactsT(st, r, rs.At(i).Type())
+			out = append(out, r)
+		}
+		c.setCell(st, c.worldCell(), ts.UF("core!"+fname+"!world", SInt, uargs...))
+		// results may be freshly allocated objects
+		nw := ts.Fresh("wm!core", SInt)
+		c.addFact(st, ts.Ge(nw, st.wm))
+		st.wm = nw
+		if c.writeLog != nil {
+			c.writeLog.wm = true
+		}
+		return out
+	}
 	// generic: deterministic? no — arbitrary results
 	use(name + ": unmodelled — results arbitrary; memory behind pointer arguments havocked")
 	sig := cc.Signature()
@@ -1017,4 +1048,25 @@ func (c *FnCtx) gobDecode(fr *Frame, st *State, x *ssa.Call, args []*Term, cc *s
 	c.addFact(st, ts.Ge(c.hget(st, mh.ln, mh.sln, nm), ts.Int(0)))
 	c.trusted["gob.Decoder.Decode into a non-empty map is modelled as replacing it (mxj always passes a freshly made empty map)"] = true
 	return []*Term{e}
+}
+
+func (c *FnCtx) worldCell() *Cell {
+	if c.eng.world == nil {
+		c.eng.cellSeq++
+		c.eng.world = &Cell{name: "world", id: c.eng.cellSeq, ghostSort: SInt}
+		c.eng.world.init = c.eng.ts.Named("world!0", SInt)
+	}
+	return c.eng.world
+}
+
+// typeFactsT: like typeFacts but triggered on the value (for uninterpreted results that may go unused).
+func (c *FnCtx) typeFactsT(st *State, v *Term, t types.Type) {
+	switch u := t.Underlying().(type) {
+	case *types.Interface:
+		if u.NumMethods() > 0 {
+			c.addFactT(st, v, c.eng.ts.Or(c.eng.tc.IsNilVal(v), c.eng.ts.App("(_ is VBox)", SBool, v)))
+		}
+	case *types.Pointer, *types.Map:
+		c.addFactT(st, v, c.eng.ts.Le(c.eng.ts.Int(0), v))
+	}
 }
